@@ -282,7 +282,7 @@ def selftest():
 
 
 SUBCHECKS = [
-    Sub('C02.create_canonical_all_routes', run_create, strategy=create_case, examples={'quick': 20000, 'thorough': 300000}, ambient=('bytealigned',)),
+    Sub('C02.create_canonical_all_routes', run_create, strategy=create_case, examples={'quick': 20000, 'thorough': 300000}, ambient=('bytealigned', 'lsb0')),
     Sub('C02.read_all_routes_and_rebuild', run_read, strategy=read_case, examples={'quick': 16000, 'thorough': 250000}, ambient=('bytealigned',)),
     Sub('C02.aliases', run_alias, strategy=alias_case, examples={'quick': 3000, 'thorough': 30000}),
 ]
